@@ -9,7 +9,8 @@ path, the places where state can live -
     memoised function f   lru_cache / cache / cached_property
     field C.a             attribute of self / cls assigned anywhere in class C
     class-level C.a       mutable container in a class body
-    attribute write x.a   attribute assigned on some other object (function objects, generated functions)
+    attribute write *.a   attribute `a` assigned on some other object (function objects, generated functions), whatever
+                          the variable holding that object is called
     global statement X
 
 - and requires it to be within the inventory below, each item of which names the contract that covers it.  A change that
@@ -44,9 +45,9 @@ DECLARED = {
         "field Ovld.id", "field Ovld._compiled", "field Ovld.linkback", "field Ovld.children", "field Ovld.allow_replacement", "field Ovld.name", "field Ovld.shortname", "field Ovld.__name__",
         "field Ovld.__qualname__", "field Ovld.__module__", "field Ovld._defns", "field Ovld._locked", "field Ovld.mixins", "field Ovld.argument_analysis", "field Ovld.map", "field Ovld.dispatch",
         # the user-facing function object: attributes set once by bootstrap_dispatch
-        "attribute write dispatch.__ovld__", "attribute write dispatch.__signature__", "attribute write dispatch.add_mixins", "attribute write dispatch.copy", "attribute write dispatch.display_methods",
-        "attribute write dispatch.display_resolution", "attribute write dispatch.next", "attribute write dispatch.register", "attribute write dispatch.resolve", "attribute write dispatch.unregister", "attribute write dispatch.variant",
-        "attribute write fn._conformer", "attribute write fn._extend_super",
+        "attribute write *.__ovld__", "attribute write *.__signature__", "attribute write *.add_mixins", "attribute write *.copy", "attribute write *.display_methods",
+        "attribute write *.display_resolution", "attribute write *.next", "attribute write *.register", "attribute write *.resolve", "attribute write *.unregister", "attribute write *.variant",
+        "attribute write *._conformer", "attribute write *._extend_super",
         # ArgumentAnalyzer: rebuilt from scratch by analyze_arguments on every build (per-instance verification of its output)
         "field ArgumentAnalyzer.complex_transforms", "field ArgumentAnalyzer.counts", "field ArgumentAnalyzer.done", "field ArgumentAnalyzer.is_method", "field ArgumentAnalyzer.keyword_optional",
         "field ArgumentAnalyzer.keyword_required", "field ArgumentAnalyzer.name_to_positions", "field ArgumentAnalyzer.position_to_names", "field ArgumentAnalyzer.positional_optional",
@@ -57,13 +58,13 @@ DECLARED = {
     },
     "recode": {
         "global _current",  # counter for fresh code names (recode.tail: every rewrite gets its own)
-        "attribute write new_fn.__annotations__", "attribute write new_fn.__kwdefaults__",
+        "attribute write *.__annotations__", "attribute write *.__kwdefaults__",
         "field Conformer.code", "field Conformer.orig_fn", "field Conformer.ovld", "field Conformer.renamed_fn",
         "field NameConverter.analysis", "field NameConverter.call_next_sym", "field NameConverter.code_mangled", "field NameConverter.count", "field NameConverter.map_mangled",
         "field NameConverter.ovld_mangled", "field NameConverter.recurse_sym",
     },
     "types": {
-        "global __all__", "attribute write _C.__name__", "attribute write _C.__qualname__",
+        "global __all__", "attribute write *.__name__", "attribute write *.__qualname__",
         "field Intersection.__args__", "field Intersection.types", "field MetaMC.__args__", "field SingleFunctionHandler.__args__", "field SingleFunctionHandler.args", "field SingleFunctionHandler.handler",
         "field TypeNormalizer.generic_handlers", "field Union.__args__", "field Union.types",
     },
@@ -110,7 +111,7 @@ def inventory(modname):
                             out.add(f"class-level {st.name}.{t.id}")
     for n in ast.walk(tree):
         if isinstance(n, ast.Attribute) and isinstance(n.ctx, ast.Store) and isinstance(n.value, ast.Name) and n.value.id not in ("self", "cls"):
-            out.add(f"attribute write {n.value.id}.{n.attr}")
+            out.add(f"attribute write *.{n.attr}")  # whatever the receiver is called: renaming a local is not new state
         if isinstance(n, ast.Global):
             out |= {f"global statement {x}" for x in n.names}
         # nested memo decorators (functions defined inside functions / methods)
